@@ -553,7 +553,7 @@ def run(chk):
 
     rng = chk.rng
     quick = chk.tier == "quick"
-    n_layouts = 300 if quick else 2400
+    n_layouts = 700 if quick else 3500
     seeds = [0, 1, 2] if quick else [0, 1, 2, 3, 4, 5, 6, 7]
     # hash seeds: fixed small ones plus seed-dependent ones
     seeds = seeds[:-1] + [100 + (chk.seed * 7919 + 13) % 4000]
